@@ -22,6 +22,11 @@ fn main() {
     out += &slice(&s, "#[derive(Clone)]\npub struct WalLogStore", "/// Helper to create a new memory state machine", "WalLogStore");
     let dir = std::env::var("OUT_DIR").unwrap();
     fs::write(format!("{dir}/storage_slice.rs"), out).unwrap();
+    // C19: the state-machine adapter (StoredSnapshot, StateMachineData, MemStateMachine and its two trait impls)
+    let mut sm = slice(&s, "// --- State Machine Store ---", "/// Helper to create a new memory log store", "MemStateMachine");
+    sm += "\n";
+    sm += &s[s.find("/// Helper to create a new memory state machine").expect("new_mem_state_machine")..];
+    fs::write(format!("{dir}/sm_slice.rs"), sm).unwrap();
     let peers = slice(&n, "#[derive(Serialize, Deserialize)]\nstruct PeerAddrRecord", "/// OpenRaft-based node", "peer address records");
     fs::write(format!("{dir}/node_slice.rs"), peers).unwrap();
 }
